@@ -837,8 +837,8 @@ fn find_subselectors() {
 /// absolute codepoint offsets where the text occurs, in order and inside the range
 #[test]
 fn find_text_ops() {
-    let texts = ["a b c d", "abab", "é €€ 𝄞 é", "xXxX", "  ab  ", ""];
-    let needles = ["a", "ab", " ", "€", "é", "X", "b c"];
+    let texts = ["a b c d", "abab", "é €€ 𝄞 é", "xXxX", "  ab  ", "", "\u{130}\u{130}xab", "\u{212A}x b"];
+    let needles = ["a", "ab", " ", "€", "é", "X", "b c", "i", "k"];
     for text in texts {
         let store = AnnotationStore::default().with_resource(TextResourceBuilder::new().with_id("r").with_text(text)).unwrap();
         let res = store.resource("r").unwrap();
@@ -854,13 +854,22 @@ fn find_text_ops() {
                 let want: Vec<(usize, usize)> = sub.match_indices(needle).map(|(i, m)| (charpos(i), charpos(i + m.len()))).collect();
                 let got: Vec<(usize, usize)> = match &sel { None => res.find_text(needle).map(|t| (t.begin(), t.end())).collect(), Some(s) => s.find_text(needle).map(|t| (t.begin(), t.end())).collect() };
                 if got != want { println!("WITNESS {{\"clause\":\"find_text\",\"text\":{:?},\"range\":\"{}..{}\",\"needle\":{:?},\"got\":\"{:?}\",\"want\":\"{:?}\"}}", text, b, e, needle, got, want); return; }
-                // find_text_nocase (texts here keep their length under lower-casing)
-                let lsub = sub.to_lowercase(); let lneedle = needle.to_lowercase();
-                if lsub.chars().count() == sub.chars().count() {
-                    let lcharpos = |byte: usize| b + lsub[..byte].chars().count();
-                    let want: Vec<(usize, usize)> = lsub.match_indices(lneedle.as_str()).map(|(i, m)| (lcharpos(i), lcharpos(i + m.len()))).collect();
-                    let got: Vec<(usize, usize)> = match &sel { None => res.find_text_nocase(needle).map(|t| (t.begin(), t.end())).collect(), Some(s) => s.find_text_nocase(needle).map(|t| (t.begin(), t.end())).collect() };
-                    if got != want { println!("WITNESS {{\"clause\":\"find_text_nocase\",\"text\":{:?},\"range\":\"{}..{}\",\"needle\":{:?},\"got\":\"{:?}\",\"want\":\"{:?}\"}}", text, b, e, needle, got, want); return; }
+                // find_text_nocase: the occurrences of the lowercased needle in the lowercased text that begin and end on the boundary of an
+                // original character (lower-casing may turn one character into several, or change its byte length), left to right, not overlapping
+                {
+                    let schars: Vec<char> = sub.chars().collect();
+                    let mut low: Vec<(char, usize, bool)> = vec![];   // (lowercased char, index of the original char, first of its expansion)
+                    for (i, c) in schars.iter().enumerate() { for (k, l) in c.to_lowercase().enumerate() { low.push((l, i, k == 0)); } }
+                    let lneedle: Vec<char> = needle.to_lowercase().chars().collect();
+                    let mut want: Vec<(usize, usize)> = vec![];
+                    let mut p = 0usize;
+                    while !lneedle.is_empty() && p + lneedle.len() <= low.len() {
+                        let hit = (0..lneedle.len()).all(|k| low[p + k].0 == lneedle[k]);
+                        let q = p + lneedle.len();
+                        if hit && low[p].2 && (q == low.len() || low[q].2) { want.push((b + low[p].1, b + if q == low.len() { schars.len() } else { low[q].1 })); p = q; } else { p += 1; }
+                    }
+                    let got = std::panic::catch_unwind(std::panic::AssertUnwindSafe(|| -> Vec<(usize, usize)> { match &sel { None => res.find_text_nocase(needle).map(|t| (t.begin(), t.end())).collect(), Some(s) => s.find_text_nocase(needle).map(|t| (t.begin(), t.end())).collect() } }));
+                    if got.as_ref().ok() != Some(&want) { println!("WITNESS {{\"clause\":\"find_text_nocase\",\"text\":{:?},\"range\":\"{}..{}\",\"needle\":{:?},\"got\":\"{:?}\",\"want\":\"{:?}\"}}", text, b, e, needle, got.ok(), want); return; }
                 }
                 // split_text: consecutive pieces that, with the delimiters, cover the range
                 let mut want = vec![]; let mut pos = b;
@@ -894,9 +903,10 @@ fn find_text_ops() {
             for set in [vec![' '], vec!['a', ' '], vec!['é', 'x', 'X']] {
                 let trimmed = sub.trim_matches(|c| set.contains(&c));
                 let lead = sub.len() - sub.trim_start_matches(|c| set.contains(&c)).len();
-                let want = if trimmed.is_empty() && !sub.is_empty() { None } else { Some((charpos(lead), charpos(lead) + trimmed.chars().count())) };
+                // (a text of trimmable characters only trims to an empty selection, as the plain string operation gives "")
+                let want = if trimmed.is_empty() { None } else { Some((charpos(lead), charpos(lead) + trimmed.chars().count())) };
                 let got = match &sel { None => res.trim_text(&set).ok().map(|t| (t.begin(), t.end())), Some(s) => s.trim_text(&set).ok().map(|t| (t.begin(), t.end())) };
-                let ok = match (got, want) { (Some(g), Some(w)) => g == w, (g, None) => g.map(|(x, y)| x == y).unwrap_or(true), (None, Some(w)) => w.0 == w.1 };
+                let ok = match (got, want) { (Some(g), Some(w)) => g == w, (Some((x, y)), None) => x == y && b <= x && y <= e, (None, _) => false };
                 if !ok { println!("WITNESS {{\"clause\":\"trim_text\",\"text\":{:?},\"range\":\"{}..{}\",\"chars\":\"{:?}\",\"got\":\"{:?}\",\"want\":\"{:?}\"}}", text, b, e, set, got, want); return; }
             }
         }}
@@ -1106,44 +1116,61 @@ fn find_annotate_failures() {
     println!("NO-WITNESS find_annotate_failures");
 }
 
-/// bounded stand-in for the loader part of C19, files that include each other: loading must end (with a store or an error);
-/// a runaway recursion ends the test process (stack overflow), which the runner reports as the failing input
+/// bounded stand-in for the loader part of C19, files that include each other (stores, datasets, stand-off resources): loading
+/// must end, with a store or an error.  Every case is loaded in a child process (this test binary run again with VX_INCLUDE_CASE
+/// set), because a runaway recursion ends in a stack overflow that aborts the whole process: the parent reports how the child ended.
 #[test]
 fn find_include_cycle() {
-    let base = std::path::PathBuf::from(std::env::var("VX_SCRATCH").unwrap_or("/var/tmp".to_string())).join(format!("vx_include_cycle_{}", std::process::id()));
     let store_json = |id: &str, include: &[&str], res: &str| format!(r#"{{ "@type": "AnnotationStore", "@id": "{}", "@include": [{}],
         "resources": [{{ "@type": "TextResource", "@id": "{}", "text": "hello world" }}] }}"#, id, include.iter().map(|x| format!("\"{}\"", x)).collect::<Vec<_>>().join(", "), res);
-    // (name, files: (filename, includes), use a working directory)
-    let cases: Vec<(&str, Vec<(&str, Vec<&str>)>, bool)> = vec![
-        ("two stores including each other, loaded by path", vec![("a.store.stam.json", vec!["b.store.stam.json"]), ("b.store.stam.json", vec!["a.store.stam.json"])], false),
-        ("two stores including each other, loaded with a working directory", vec![("a.store.stam.json", vec!["b.store.stam.json"]), ("b.store.stam.json", vec!["a.store.stam.json"])], true),
-        ("a store including itself", vec![("a.store.stam.json", vec!["a.store.stam.json"])], false),
-        ("a cycle of three", vec![("a.store.stam.json", vec!["b.store.stam.json"]), ("b.store.stam.json", vec!["c.store.stam.json"]), ("c.store.stam.json", vec!["a.store.stam.json"])], false),
-        ("the same store included twice", vec![("a.store.stam.json", vec!["b.store.stam.json", "b.store.stam.json"]), ("b.store.stam.json", vec![])], false),
+    // (name, files: (filename, content), use a working directory)
+    let st = |k: usize, inc: &[&str]| store_json(&format!("s{}", k), inc, &format!("res{}", k));
+    let cases: Vec<(&str, Vec<(&str, String)>, bool)> = vec![
+        ("two stores including each other, loaded by path", vec![("a.store.stam.json", st(0, &["b.store.stam.json"])), ("b.store.stam.json", st(1, &["a.store.stam.json"]))], false),
+        ("two stores including each other, loaded with a working directory", vec![("a.store.stam.json", st(0, &["b.store.stam.json"])), ("b.store.stam.json", st(1, &["a.store.stam.json"]))], true),
+        ("a store including itself", vec![("a.store.stam.json", st(0, &["a.store.stam.json"]))], false),
+        ("a cycle of three", vec![("a.store.stam.json", st(0, &["b.store.stam.json"])), ("b.store.stam.json", st(1, &["c.store.stam.json"])), ("c.store.stam.json", st(2, &["a.store.stam.json"]))], false),
+        ("the same store included twice", vec![("a.store.stam.json", st(0, &["b.store.stam.json", "b.store.stam.json"])), ("b.store.stam.json", st(1, &[]))], false),
+        ("a stand-off text resource file without text", vec![("a.store.stam.json", r#"{ "@type": "AnnotationStore", "resources": [{ "@type": "TextResource", "@include": "r.json" }] }"#.to_string()), ("r.json", r#"{ "@type": "TextResource", "@id": "r" }"#.to_string())], true),
+        ("a stand-off text resource file that is an empty object", vec![("a.store.stam.json", r#"{ "@type": "AnnotationStore", "resources": [{ "@type": "TextResource", "@include": "r.json" }] }"#.to_string()), ("r.json", "{}".to_string())], true),
+        ("a dataset file including itself", vec![("a.store.stam.json", r#"{ "@type": "AnnotationStore", "annotationsets": [{ "@type": "AnnotationDataSet", "@include": "set.json" }] }"#.to_string()), ("set.json", r#"{ "@type": "AnnotationDataSet", "@id": "d", "@include": "set.json", "keys": [{"@type": "DataKey", "@id": "k"}] }"#.to_string())], true),
+        ("two dataset files including each other", vec![("a.store.stam.json", r#"{ "@type": "AnnotationStore", "annotationsets": [{ "@type": "AnnotationDataSet", "@include": "set.json" }] }"#.to_string()), ("set.json", r#"{ "@type": "AnnotationDataSet", "@id": "d", "@include": "set2.json" }"#.to_string()), ("set2.json", r#"{ "@type": "AnnotationDataSet", "@id": "d", "@include": "set.json" }"#.to_string())], true),
     ];
+    // child part: load one case and say how it ended
+    if let Ok(dir) = std::env::var("VX_INCLUDE_CASE") {
+        let wd = std::env::var("VX_INCLUDE_WORKDIR").is_ok();
+        let d2 = std::path::PathBuf::from(&dir);
+        let r = std::panic::catch_unwind(|| {
+            if wd { AnnotationStore::from_file("a.store.stam.json", Config::default().with_workdir(d2.to_str().unwrap().to_string())) }
+            else { AnnotationStore::from_file(d2.join("a.store.stam.json").to_str().unwrap(), Config::default()) }
+        });
+        match r { Err(_) => println!("CHILD-PANIC"), Ok(Err(e)) => println!("CHILD-ENDED error: {}", e), Ok(Ok(s)) => println!("CHILD-ENDED store with {} resources", s.resources_len()) }
+        return;
+    }
+    let known = known_keys("find_include_cycle");
+    let base = std::path::PathBuf::from(std::env::var("VX_SCRATCH").unwrap_or("/var/tmp".to_string())).join(format!("vx_include_cycle_{}", std::process::id()));
     for (k, (name, files, workdir)) in cases.iter().enumerate() {
         let dir = base.join(format!("case{}", k));
         let _ = std::fs::remove_dir_all(&dir);
         std::fs::create_dir_all(&dir).unwrap();
-        for (i, (f, inc)) in files.iter().enumerate() { std::fs::write(dir.join(f), store_json(&format!("s{}", i), inc, &format!("res{}", i))).unwrap(); }
-        println!("(include case: {})", name);
-        let (tx, rx) = std::sync::mpsc::channel();
-        let d2 = dir.clone(); let wd = *workdir;
-        let handle = std::thread::Builder::new().stack_size(16 * 1024 * 1024).spawn(move || {
-            let r = std::panic::catch_unwind(|| {
-                if wd { AnnotationStore::from_file("a.store.stam.json", Config::default().with_workdir(d2.to_str().unwrap().to_string())) }
-                else { AnnotationStore::from_file(d2.join("a.store.stam.json").to_str().unwrap(), Config::default()) }
-            });
-            let _ = tx.send(match r { Err(_) => Err("panic".to_string()), Ok(Err(e)) => Ok(format!("error: {}", e)), Ok(Ok(s)) => Ok(format!("store with {} resources", s.resources_len())) });
-        }).unwrap();
-        let outcome = rx.recv_timeout(std::time::Duration::from_secs(60));
-        let problem = match &outcome {
-            Err(_) => Some("loading did not end within 60 s".to_string()),
-            Ok(Err(p)) => Some(p.clone()),
-            Ok(Ok(msg)) => if msg.contains("Too many open files") || msg.contains("os error 24") { Some(format!("recursed until the process ran out of file descriptors: {}", msg)) } else { None },
+        for (f, content) in files.iter() { std::fs::write(dir.join(f), content).unwrap(); }
+        let mut cmd = std::process::Command::new(std::env::current_exe().unwrap());
+        cmd.args(["verif_hooks::replay::find_include_cycle", "--exact", "--nocapture", "--test-threads=1"]).env("VX_INCLUDE_CASE", dir.to_str().unwrap());
+        if *workdir { cmd.env("VX_INCLUDE_WORKDIR", "1"); }
+        let mut child = cmd.stdout(std::process::Stdio::piped()).stderr(std::process::Stdio::piped()).spawn().unwrap();
+        // (a runaway recursion through files ends quickly; the limit only guards against a loop that does not)
+        let started = std::time::Instant::now();
+        let status = loop { match child.try_wait().unwrap() { Some(st) => break Some(st), None => { if started.elapsed().as_secs() > 60 { let _ = child.kill(); break None; } std::thread::sleep(std::time::Duration::from_millis(20)); } } };
+        let out = child.wait_with_output().map(|o| format!("{}{}", String::from_utf8_lossy(&o.stdout), String::from_utf8_lossy(&o.stderr))).unwrap_or_default();
+        let problem = match status {
+            None => Some("loading did not end within 60 s".to_string()),
+            Some(st) if out.contains("CHILD-PANIC") => Some(format!("panic ({})", st)),
+            Some(_) if out.contains("Too many open files") || out.contains("os error 24") => Some("recursed until the process ran out of file descriptors".to_string()),
+            Some(_) if out.contains("CHILD-ENDED") => None,
+            Some(st) => Some(format!("the loading process was aborted: {}{}", st, if out.contains("overflowed its stack") { " (stack overflow)" } else { "" })),
         };
-        if outcome.is_ok() { let _ = handle.join(); }
         if let Some(p) = problem {
+            if known.iter().any(|x| x == name) { println!("KNOWN {}", name); continue; }
             println!("WITNESS {{\"clause\":\"include cycle\",\"case\":{:?},\"problem\":{:?}}}", name, p);
             let _ = std::fs::remove_dir_all(&base);
             return;
